@@ -1,5 +1,5 @@
 (* Extraction of the executable models (trusted base: ExtrOcamlBasic only;
    Z, positive and nat stay extracted inductive datatypes). *)
 From Coq Require Import ExtrOcamlBasic.
-From PyecoreV Require Import Model.Coll Model.KernelIO Model.Fragment Model.Defaults Model.MetaViews Model.Commands Model.SaveFsIO Model.ResourceSet Model.DataConv Model.C3 Model.Operations Model.MetaEdit Model.EcoreIO Model.XmiAttr Model.JsonVal Model.RefLoad Model.PathsIO.
-Extraction "modelgen.ml" run_coll run_kernel run_frag run_defaults run_metaviews run_commands run_savefs run_rset run_dataconv run_c3 run_sig run_promote run_iskw run_metaedit run_ecoremm run_xmiattr run_jsonval run_refload run_paths run_proxy.
+From PyecoreV Require Import Model.Coll Model.KernelIO Model.Premises Model.Fragment Model.Defaults Model.MetaViews Model.Commands Model.SaveFsIO Model.ResourceSet Model.DataConv Model.C3 Model.Operations Model.MetaEdit Model.EcoreIO Model.XmiAttr Model.JsonVal Model.RefLoad Model.PathsIO.
+Extraction "modelgen.ml" run_coll run_kernel run_premises run_frag run_defaults run_metaviews run_commands run_savefs run_rset run_dataconv run_c3 run_sig run_promote run_iskw run_metaedit run_ecoremm run_xmiattr run_jsonval run_refload run_paths run_proxy.
